@@ -28,9 +28,10 @@ ASSUMPTIONS = [
     "operations the layout does not admit (to_scalar with 0 leading axes, reshape_pmap on a non-batch axis 0, multi-type multi-images with 0 leading axes) are disabled by precondition",
     "reshape_pmap only uses len(devices); the host has one CPU device, lists of that device simulate n devices",
 ]
+CLEAR_CACHES_EVERY = 200  # the save/load mode builds networks
 CONFIG = {
     "quick": {"examples": 960, "shards": 16, "shrink_s": 40, "time_budget_s": 240},
-    "thorough": {"examples": 14000, "shards": 16, "shrink_s": 200, "time_budget_s": 1500},
+    "thorough": {"examples": 9000, "shards": 16, "shrink_s": 200, "time_budget_s": 1500},
 }
 LEAD_SIZES = [2, 3, 5, 7, 4, 6]
 IMMEDIATE = ["vector", "images", "copy", "jit", "vmap", "flatten", "gi_pytree"]
